@@ -108,13 +108,31 @@ def coq_make(targets=None):
 
 
 def build_harness(prop):
+    """Build harness/<prop> against /repo's working tree (hooks on).  For
+    sensitivity self-tests VERIF_REPO=<scratch worktree> builds the same harness
+    against a mutated copy instead (never used by registered commands)."""
     hdir = os.path.join(ROOT, "harness")
-    gosum = os.path.join(REPO, "go.sum")
+    repo = os.environ.get("VERIF_REPO", REPO)
+    gosum = os.path.join(repo, "go.sum")
     if os.path.exists(gosum):
         with open(gosum) as f, open(os.path.join(hdir, "go.sum"), "w") as g:
             g.write(f.read())
     exe = os.path.join(BUILD, "harness_" + prop)
-    rc, out = sh([GO, "build", "-tags", "verif", "-o", exe, "./" + prop.lower()], cwd=hdir, env=GOENV, timeout=900)
+    cmd = [GO, "build", "-tags", "verif", "-o", exe]
+    if repo != REPO:
+        log("WARNING: building the harness against %s instead of /repo" % repo)
+        exe += "_alt"
+        mdir = os.path.join(BUILD, "altmod_" + prop)
+        os.makedirs(mdir, exist_ok=True)
+        with open(os.path.join(hdir, "go.mod")) as f:
+            gm = f.read().replace("=> /repo", "=> " + repo)
+        with open(os.path.join(mdir, "go.mod"), "w") as f:
+            f.write(gm)
+        if os.path.exists(gosum):
+            with open(gosum) as f, open(os.path.join(mdir, "go.sum"), "w") as g:
+                g.write(f.read())
+        cmd = [GO, "build", "-tags", "verif", "-modfile", os.path.join(mdir, "go.mod"), "-o", exe]
+    rc, out = sh(cmd + ["./" + prop.lower()], cwd=hdir, env=GOENV, timeout=900)
     return rc, out, exe
 
 
